@@ -16,6 +16,7 @@ import (
 
 	sdkmath "cosmossdk.io/math"
 	sdk "github.com/cosmos/cosmos-sdk/types"
+	authtypes "github.com/cosmos/cosmos-sdk/x/auth/types"
 	transfertypes "github.com/cosmos/ibc-go/v8/modules/apps/transfer/types"
 )
 
@@ -125,12 +126,20 @@ func (s *Sim) knownGood(in *PktInfo) (bool, string) {
 			return false, "unknown cctp domain"
 		}
 	case "PROTOCOL_HYPERLANE":
+		if bytesEq(p.Token, s.Env.HypIGPToken.Bytes()) {
+			return false, "token behind an interchain gas paymaster: needs fee funds on the orbiter account"
+		}
 		tok, ok := s.Env.HypTokens[in.Native]
 		if !ok || !bytesEq(tok.Bytes(), p.Token) {
 			return false, "token"
 		}
-		if len(p.Recipient32) != 32 || len(p.HookID) != 0 || p.HookMeta != "" || p.GasLimit != "0" || p.MaxFeeAmt != "0" || p.MaxFeeDenom != in.Native {
+		if len(p.Recipient32) != 32 || len(p.HookID) != 0 || p.HookMeta != "" {
 			return false, "hyperlane params"
+		}
+		// this mailbox's hooks charge nothing: gas limit and max fee (any valid coin) are immaterial
+		okDenom := p.MaxFeeDenom == DenomUSDC || p.MaxFeeDenom == DenomOther || p.MaxFeeDenom == DenomStake || p.MaxFeeDenom == DenomHuge
+		if !okDenom || !decRe(p.GasLimit) || !decRe(p.MaxFeeAmt) || len(p.GasLimit) > 12 || len(p.MaxFeeAmt) > 12 {
+			return false, "hyperlane fee params"
 		}
 		ok = false
 		for _, d := range HypDomains {
@@ -385,6 +394,9 @@ func (s *Sim) onRefused(p *Pkt, in *PktInfo, mo *MsgObs, ack AckInfo) {
 	}
 	s.Stats.Count("rule:must-succeed")
 	s.violate("C08", "executed-iff-not-paused", "refused-without-reason route="+in.Payload.Proto, fmt.Sprintf("packet op=%d: canonical transfer on a healthy, unpaused environment was refused: %.300s", p.Origin, ack.Error))
+	if len(s.Ledger.Bal[s.Env.Orbiter.String()]) > 0 {
+		s.violate("C11", "prior-balance-never-blocks", "known-good-transfer-refused-while-orbiter-holds-coins route="+in.Payload.Proto, fmt.Sprintf("packet op=%d: a canonical transfer on a healthy, unpaused environment was refused while the orbiter account held %v: %.200s", p.Origin, s.Ledger.Bal[s.Env.Orbiter.String()], ack.Error))
+	}
 }
 
 func feeTotal(fo *FeeOutcome) *big.Int {
@@ -392,6 +404,34 @@ func feeTotal(fo *FeeOutcome) *big.Int {
 		return new(big.Int)
 	}
 	return fo.Total
+}
+
+// igpTag: the message shows an interchain gas payment from the orbiter account to the Hyperlane module
+// (decided from the bank flows of the message itself, so it also holds for non-canonical payload spellings).
+func (s *Sim) igpTag(mo *MsgObs) string {
+	hyp := authtypes.NewModuleAddress("hyperlane").String()
+	for _, f := range mo.Flows {
+		if f.From == s.Env.Orbiter.String() && f.To == hyp {
+			return " cause=hyperlane-igp-fee-charged-to-orbiter-account"
+		}
+	}
+	return ""
+}
+
+// igpTagDeltas: the same decision from a shadow variant's ledger deltas.
+func (s *Sim) igpTagDeltas(vs ...*variantResult) string {
+	hyp := authtypes.NewModuleAddress("hyperlane").String()
+	for _, v := range vs {
+		if v == nil {
+			continue
+		}
+		for _, l := range v.Deltas {
+			if strings.HasPrefix(l, hyp+"/") {
+				return " cause=hyperlane-igp-fee-charged-to-orbiter-account"
+			}
+		}
+	}
+	return ""
 }
 
 func (s *Sim) onAccepted(p *Pkt, in *PktInfo, mo *MsgObs) {
@@ -462,7 +502,7 @@ func (s *Sim) onAccepted(p *Pkt, in *PktInfo, mo *MsgObs) {
 	}
 	for denom, v := range mo.Delta[orb] {
 		if denom != c.Denom && v.Sign() != 0 {
-			s.violate("C01", "R2-whole-coin-left", "orbiter-other-denom", fmt.Sprintf("packet op=%d: orbiter %s changed by %s during a %s transfer", p.Origin, denom, v, c.Denom))
+			s.violate("C01", "R2-whole-coin-left", "orbiter-other-denom"+s.igpTag(mo), fmt.Sprintf("packet op=%d: orbiter %s changed by %s during a %s transfer", p.Origin, denom, v, c.Denom))
 		}
 	}
 	if in.Payload != nil && in.Canon && in.Payload.Swap != nil {
@@ -470,6 +510,13 @@ func (s *Sim) onAccepted(p *Pkt, in *PktInfo, mo *MsgObs) {
 		return
 	}
 	if poolAddr != "" && flowsTouch(post, poolAddr) {
+		var po []Flow
+		for _, f := range post {
+			if f.From == orb {
+				po = append(po, f)
+			}
+		}
+		s.noteEscrowGifts(po)
 		// a non-canonical spelling of a payload with the test swap action: the single-denomination rules do not apply
 		s.statsTainted = true
 		s.Stats.Probe("stats_model_tainted_by_noncanonical_success")
@@ -477,7 +524,16 @@ func (s *Sim) onAccepted(p *Pkt, in *PktInfo, mo *MsgObs) {
 	}
 	// ---- C02 conservation over the whole ledger
 	var outs []Flow // orbiter's outflows after the credit (the sweep happened before it)
+	hypMod := authtypes.NewModuleAddress("hyperlane").String()
 	for _, f := range post {
+		if f.From == orb && f.To == hypMod {
+			// an interchain gas payment charged by Hyperlane to the sender of the remote transfer: paid out of
+			// whatever the orbiter account holds (never part of the transferred coin, which is forwarded whole)
+			s.Stats.Count("rule:C02.bridge-fee-flow")
+			s.violate("C02", "conservation", "bridge-fee-paid-by-orbiter-account"+s.igpTag(mo), fmt.Sprintf("packet op=%d: the orbiter account paid %s%s to the Hyperlane module during a %s transfer", p.Origin, f.Amt, f.Denom, c.Denom))
+			s.violate("C11", "other-denominations-left-where-they-are", "prior-balance-spent"+s.igpTag(mo), fmt.Sprintf("packet op=%d: %s%s of the orbiter account's prior balance was spent during a %s transfer", p.Origin, f.Amt, f.Denom, c.Denom))
+			continue
+		}
 		if f.From == orb {
 			outs = append(outs, f)
 		}
@@ -486,13 +542,18 @@ func (s *Sim) onAccepted(p *Pkt, in *PktInfo, mo *MsgObs) {
 	sum := new(big.Int)
 	for _, f := range outs {
 		if f.Denom != c.Denom {
-			s.violate("C02", "conservation", "foreign-denom-outflow", fmt.Sprintf("packet op=%d: orbiter paid %s%s during a %s transfer", p.Origin, f.Amt, f.Denom, c.Denom))
+			s.violate("C02", "conservation", "foreign-denom-outflow"+s.igpTag(mo), fmt.Sprintf("packet op=%d: orbiter paid %s%s during a %s transfer", p.Origin, f.Amt, f.Denom, c.Denom))
 		}
 		sum.Add(sum, f.Amt)
 	}
+	s.Stats.Count("rule:C03.success-complete-in-history")
 	if len(outs) == 0 {
 		s.violate("C02", "conservation", "nothing-forwarded", fmt.Sprintf("packet op=%d: success but no outflow from the orbiter account", p.Origin))
+		s.violate("C03", "success-only-after-all-movements", "success-ack-without-forwarding", fmt.Sprintf("packet op=%d: success acknowledgement although nothing left the orbiter account", p.Origin))
 		return
+	}
+	if sum.Cmp(c.Amt) < 0 {
+		s.violate("C03", "success-only-after-all-movements", "success-ack-with-funds-left-behind", fmt.Sprintf("packet op=%d: success acknowledgement although only %s of the %s%s received left the orbiter account", p.Origin, sum, c.Amt, c.Denom))
 	}
 	// C16: the coin the orbiter acts on (fees + forwarded) is exactly the coin ICS-20 credited
 	s.Stats.Count("rule:C16.acted-on-coin")
@@ -544,7 +605,7 @@ func (s *Sim) onAccepted(p *Pkt, in *PktInfo, mo *MsgObs) {
 		s.violate("C02", "conservation", "non-positive-out", fmt.Sprintf("packet op=%d", p.Origin))
 	}
 	// accounts whose balance changed: escrow, orbiter, dust collector, fee recipients, sink
-	allowed := map[string]bool{escrow: true, orb: true, dust: true, sink.To: true}
+	allowed := map[string]bool{escrow: true, orb: true, dust: true, sink.To: true, hypMod: true}
 	for _, f := range feeFlows {
 		allowed[f.To] = true
 	}
